@@ -16,7 +16,7 @@ func genC06(tier string, rng *RNG, w *CaseWriter) {
 		{Kind: "canned-internal"}, {Kind: "canned-trylater"}, {Kind: "canned-sigrequired"}, {Kind: "badurl"}, {Kind: "scheme"}, oStale, oForged,
 		respB("issuer", 0, "absent", "none")}
 	oGenuine := []ocspBehav{oGood, oRevoked, oUnknown}
-	cFaultKinds := []string{"503", "404", "302", "empty", "garbage", "truncated", "transport", "timeout", "readerr"}
+	cFaultKinds := []string{"503", "404", "302", "empty", "garbage", "truncated", "transport", "timeout", "readerr", "delta-nonhttp", "delta-unreachable", "delta-ext-malformed"}
 	cInvalid := []dpBehav{dpByName("expired"), dpByName("wrong-signer"), dpByName("no-nextupdate"), dpByName("bad-signature"), dpByName("crit-ext"), dpByName("delta-number-equal")}
 	cGenuine := []dpBehav{dpByName("clean"), dpByName("lists-cert"), dpByName("delta-clean")}
 	caches := []string{"", "", "miss", "getfail", "setfail", "getfail-discard", "setfail-discard", "stale"}
